@@ -243,9 +243,10 @@ def mc_board(work, rep, tier):
     # first had are rejected by the same model
     base = {"MaxOps": 6 if quick else 8, "NBoards": 2, "WalkInclusive": "TRUE", "CastleResets": "FALSE", "NPLimit": 7}
     cfg = vlib.cfg_text(constants=base, invariants=["Refines", "DrawRefines", "RepsExact"])
-    r = vlib.tlc(work, "BoardImpl", cfg, workers=vlib.NCPU, timeout=3300, heap="6g" if quick else "12g")
+    r = vlib.tlc(work, "BoardImpl", cfg, workers=vlib.NCPU, timeout=3300, heap="6g" if quick else "12g", coverage=True)
     vlib.need_tlc_ok(r, "BoardImpl")
     rep.add_tlc(r)
+    rep.extra["mc_boardimpl_actions"] = all_actions_taken(r, "BoardImpl.tla")
     rej = []
     for k, v in (("WalkInclusive", "FALSE"), ("CastleResets", "TRUE")):
         c = dict(base, MaxOps=6)
@@ -574,10 +575,11 @@ def c17(work, tier, seed):
     consts = {"Procs": "{1, 2}" if quick else "{1, 2, 3}", "NSlots": 2, "Hashes": "{0, 1, 2}", "Vals": "{1, 2}",
               "WritesPerProc": 2, "AtomicUsed": "TRUE"}
     cfg = vlib.cfg_text(constants=consts, invariants=["SlotIntegrity", "ReplacementOrder", "UsedInRange", "UsedExact", "UsedTracks"])
-    r = vlib.tlc(work, "TT", cfg, workers=vlib.NCPU, timeout=3000, heap="6g" if quick else "12g")
+    r = vlib.tlc(work, "TT", cfg, workers=vlib.NCPU, timeout=3000, heap="6g" if quick else "12g", coverage=True)
     vlib.need_tlc_ok(r, "TT")
     rep.add_tlc(r)
     rep.extra["mc_tt"] = {"states": r.distinct, "constants": consts, "wall_s": round(r.wall, 1)}
+    rep.extra["mc_tt"].update(all_actions_taken(r, "TT.tla", allow=("IncrRead", "IncrWrite")))  # the plain-increment grain (AtomicUsed = FALSE)
     # the as-coded grain of the counter (read, then write) must be REJECTED by the same model:
     # this keeps the UsedExact invariant from being vacuous
     consts2 = dict(consts, AtomicUsed="FALSE", Procs="{1, 2}")
@@ -773,16 +775,28 @@ def c10(work, tier, seed):
 UCI_INV = ["NoPanic", "AtMostOneBest", "ReadyOk", "NoStaleBest"]
 
 
+def all_actions_taken(r, what, allow=()):
+    """Vacuity guard: with -coverage, every action of the model must have generated states in the bounded
+    state space (an action never taken means the properties were never exercised against it). `allow`:
+    actions that belong to a variant the constants switch off."""
+    never = [a for a in r.coverage_zero if a not in allow]
+    if never:
+        raise Inconclusive("%s: actions never taken in the bounded model (vacuous?): %s" % (what, never))
+    return {"actions_taken": len(r.actions) - len(r.coverage_zero), "actions_never_taken": never,
+            "actions_of_disabled_variants": sorted(set(r.coverage_zero) & set(allow))}
+
+
 def mc_uci(work, rep, tier, liveness):
     """TLC on Uci.tla: the intended design satisfies the properties for every interleaving of the
     bounded scripts; each deviation the code first had is rejected by the same model."""
     quick = tier == "quick"
     base = {"MaxCmds": 3 if quick else 4, "NS": 2, "MaxDepth": 2, "IdGuard": "TRUE", "StopOnOk": "TRUE", "ShutdownWaits": "TRUE", "TimerInLoop": "TRUE"}
     cfg = vlib.cfg_text(spec="Spec", constants=base, invariants=UCI_INV, view="View")
-    r = vlib.tlc(work, "Uci", cfg, workers=vlib.NCPU, timeout=3300, heap="6g" if quick else "16g", name="Uci-safety")
+    r = vlib.tlc(work, "Uci", cfg, workers=vlib.NCPU, timeout=3300, heap="6g" if quick else "16g", name="Uci-safety", coverage=True)
     vlib.need_tlc_ok(r, "Uci safety")
     rep.add_tlc(r)
     info = {"safety": {"states": r.distinct, "constants": base, "wall_s": round(r.wall, 1)}}
+    info["safety"].update(all_actions_taken(r, "Uci.tla"))
     if liveness:
         lb = dict(base, MaxCmds=2 if quick else 3)
         cfg = vlib.cfg_text(spec="FairSpec", constants=lb, properties=["Answered", "StopAnswered", "LoopReturns"], view="View")
@@ -926,10 +940,10 @@ def c15(work, tier, seed):
         cfg = vlib.cfg_text(spec="FairSpec", constants=consts,
                             invariants=["StreamInOrder", "StopsWhenItShould", "NeverPastLimit", "HaltAfterDepth1", "HaltAtLeastReported", "HaltReturnsCompleted"],
                             properties=["HaltedExits", "HaltReturnsEventually"])
-        r = vlib.tlc(work, "MCIterative", cfg, workers=8, timeout=3000, heap="8g", name="MCIterative-%d-%d" % (limit, mate))
+        r = vlib.tlc(work, "MCIterative", cfg, workers=8, timeout=3000, heap="8g", name="MCIterative-%d-%d" % (limit, mate), coverage=True)
         vlib.need_tlc_ok(r, "MCIterative limit=%d mate=%d" % (limit, mate))
         rep.add_tlc(r)
-        runs.append({"limit": limit, "mate": mate, "states": r.distinct})
+        runs.append(dict({"limit": limit, "mate": mate, "states": r.distinct}, **all_actions_taken(r, "Iterative.tla")))
     rep.extra["mc_iterative"] = runs
     # non-vacuity: the other order of store / publish, and of wait / quit in Halt, must be rejected
     rejected = []
